@@ -24,6 +24,8 @@ for d in sorted(glob.glob('/verif/seeded/C[0-9][0-9]-*')):
     else:
         final="caught (quick): "+", ".join("%d× %s"%(v,k) for k,v in kinds.items())
     res=(notes[n]+" — "+final) if n in notes else final
+    if m.get('obsolete'):
+        res=(notes.get(n,'')+" — " if n in notes else "")+"**obsolete**: "+str(m['obsolete'])
     rows.append("| %s | %s | %s | %s; %s |" % (n, summ.replace('|','/'), needs.replace('|','/'), res, c))
 p='/verif/DESIGN.md'
 s=open(p).read()
@@ -33,7 +35,7 @@ tail_marker="-------------------------------------------------------------------
 new="| seed | change (from the seeder's meta.json) | needs | result of `bin/seedtest` |\n|---|---|---|---|\n"+"\n".join(rows)+"\n\n"
 rounds=sorted(set(os.path.basename(d).split('-')[1] for d in glob.glob('/verif/seeded/C[0-9][0-9]-*')))
 nofail=[n for n,r in results.items() if r.get('exit')==1 and set(r.get('kinds',{}))-{'impl-counterexample'} and 'impl-counterexample' not in r.get('kinds',{})]
-notcaught=[n for n,r in results.items() if r.get('exit')!=1]
+notcaught=[n for n,r in results.items() if r.get('exit')!=1 and not r.get('obsolete')]
 new+="%d seeded changes in %d independent rounds (%s; from round b on the seeder was told which *mechanisms* earlier rounds had used and asked for a different clause of the property).  %d were missed at first (or, where the row says so, would have been) and are caught after the strengthening named in their row (bold).  Final re-run of all of them (`bin/seedall`, results in `seeded/RESULTS.json`): %d not caught%s; %d caught only through a broken obligation/correspondence without a concrete failing input%s; all others with at least one `impl-counterexample` replay — a concrete input/history on which the property fails on the real code.  Lesson recorded for the technique: every miss was a *generator/tie blind spot* (an entry point, option value, object route, input type or call sequence that neither the model nor the harness exercised), never a wrong theorem; the theorems do not help where the tie does not reach, which is why the builders' phase 4 (hand-made mutants per clause and dimension, `corpus/Cxx/MUTANTS.md`) went looking for such blind spots ahead of the seeders.\n\n" % (len(rows), len(rounds), ", ".join(rounds), n_missed, len(notcaught), (" ("+", ".join(notcaught)+")") if notcaught else "", len(nofail), (" ("+", ".join(nofail)+")") if nofail else "")
 s=s[:a]+new+tail_marker+s[b:]
 open(p,'w').write(s)
